@@ -111,10 +111,121 @@ theorem dist_orthogonal (dim : Nat) (Q : Matrix (Fin dim) (Fin dim) ℝ) (hQ : Q
     simp only [Matrix.mulVec, dotProduct, hv, mul_sub]
   have h2 : (∑ d : Fin dim, (Q.mulVec v) d ^ 2) = ∑ e : Fin dim, v e ^ 2 := by
     have : (Q.mulVec v) ⬝ᵥ (Q.mulVec v) = v ⬝ᵥ v := by
-      rw [Matrix.dotProduct_mulVec, Matrix.vecMul_mulVec, ← Matrix.vecMul_transpose] at *
-      sorry
+      rw [Matrix.dotProduct_mulVec, ← Matrix.mulVec_transpose, Matrix.mulVec_mulVec, hQ, Matrix.one_mulVec]
     simpa [dotProduct, pow_two] using this
   simp only [h1]
   rw [h2]
+
+
+/-- **rigid-motion invariance** of the isotropic estimator: translating the points and applying an
+    orthogonal map leaves every bin value and count unchanged, for every schedule -/
+theorem unstructured_rigid_motion (sched : Sched) (hs : sched.Admissible)
+    (f : Nat → Nat → ℝ) (nf f1 : Nat) (bins : Nat → ℝ) (nb : Nat) (pos pos' : Nat → Nat → ℝ) (dim np : Nat)
+    (Q : Matrix (Fin dim) (Fin dim) ℝ) (hQ : Q.transpose * Q = 1) (t : Nat → ℝ)
+    (hpos : ∀ (d : Fin dim) p, pos' d p = (∑ e : Fin dim, Q d e * pos e p) + t d) (et : String) (i : Nat) :
+    ((unstructured sched f nf f1 bins nb pos' dim np et "e").1 i, (unstructured sched f nf f1 bins nb pos' dim np et "e").2 i) =
+    ((unstructured sched f nf f1 bins nb pos dim np et "e").1 i, (unstructured sched f nf f1 bins nb pos dim np et "e").2 i) := by
+  rw [unstructured_spec sched hs, unstructured_spec sched hs]
+  have hd : ∀ j k, distOf "e" dim pos' dim np j k = distOf "e" dim pos dim np j k := by
+    intro j k
+    simp only [distOf, if_true, beq_self_eq_true]
+    -- rotate, then translate
+    have h1 := dist_orthogonal dim Q hQ pos (fun d p => if h : d < dim then ∑ e : Fin dim, Q ⟨d, h⟩ e * pos e p else 0)
+      (by intro d p; simp [d.2]) dim np j k
+    rw [← h1]
+    rw [dist_euclid_real, dist_euclid_real]
+    congr 1
+    refine Finset.sum_congr rfl (fun d hd => ?_)
+    have hd' : d < dim := Finset.mem_range.1 hd
+    have := hpos ⟨d, hd'⟩
+    simp only [] at this
+    rw [this j, this k]
+    simp [hd']
+  split
+  · simp only [binCell_congr_dist f nf _ _ _ bins np i _ (fun j k _ _ => hd j k)]
+  · rfl
+
+/-- adding a constant to the field changes nothing (differences only) -/
+theorem pairAcc_shift (f : Nat → Nat → ℝ) (c : ℝ) (nf : Nat) (est : ℝ → ℝ) (j k : Nat) (acc : ℝ × Int) :
+    pairAcc (fun m p => f m p + c) nf est j k acc = pairAcc f nf est j k acc := by
+  unfold pairAcc
+  refine forRange_congr _ _ _ _ (fun m _ _ a => ?_) _
+  simp only [isnan_real]
+  congr 3; ring_nf
+
+theorem unstructured_shift (sched : Sched) (hs : sched.Admissible)
+    (f : Nat → Nat → ℝ) (c : ℝ) (nf f1 : Nat) (bins : Nat → ℝ) (nb : Nat) (pos : Nat → Nat → ℝ) (dim np : Nat)
+    (et dt : String) (i : Nat) :
+    ((unstructured sched (fun m p => f m p + c) nf f1 bins nb pos dim np et dt).1 i,
+     (unstructured sched (fun m p => f m p + c) nf f1 bins nb pos dim np et dt).2 i) =
+    ((unstructured sched f nf f1 bins nb pos dim np et dt).1 i, (unstructured sched f nf f1 bins nb pos dim np et dt).2 i) := by
+  rw [unstructured_spec sched hs, unstructured_spec sched hs]
+  have : ∀ acc, binCell (fun m p => f m p + c) nf (choose_estimator_func et) (distOf dt dim pos dim np) bins np i acc =
+      binCell f nf (choose_estimator_func et) (distOf dt dim pos dim np) bins np i acc := by
+    intro acc
+    unfold binCell
+    refine forRange_congr _ _ _ _ (fun j _ _ a => ?_) _
+    refine forRange_congr _ _ _ _ (fun k _ _ a => ?_) _
+    rw [pairAcc_shift]
+  simp only [this]
+
+/-- scaling the field by `a` scales the Matheron estimate by `a²` -/
+theorem accum_scale_matheron (f : Nat → Nat → ℝ) (a : ℝ) (l : List (Nat × Nat × Nat)) (v : ℝ) (c : Int) :
+    accum (fun m p => a * f m p) (choose_estimator_func "m") l (a ^ 2 * v, c) =
+      (a ^ 2 * (accum f (choose_estimator_func "m") l (v, c)).1, (accum f (choose_estimator_func "m") l (v, c)).2) := by
+  unfold accum
+  induction l generalizing v c with
+  | nil => rfl
+  | cons t l ih =>
+    simp only [List.foldl_cons]
+    have : a ^ 2 * v + (choose_estimator_func "m" : ℝ → ℝ) (a * f t.2.2 t.2.1 - a * f t.2.2 t.1) =
+        a ^ 2 * (v + (choose_estimator_func "m" : ℝ → ℝ) (f t.2.2 t.2.1 - f t.2.2 t.1)) := by
+      rw [matheron_estimator_real, matheron_estimator_real]; ring
+    rw [this, ih]
+
+theorem matheron_scale_square (sched : Sched) (hs : sched.Admissible)
+    (f : Nat → Nat → ℝ) (a : ℝ) (nf f1 : Nat) (bins : Nat → ℝ) (nb : Nat) (pos : Nat → Nat → ℝ) (dim np : Nat)
+    (dt : String) (i : Nat) (hi : i < nb - 1) :
+    (unstructured sched (fun m p => a * f m p) nf f1 bins nb pos dim np "m" dt).1 i =
+      a ^ 2 * (unstructured sched f nf f1 bins nb pos dim np "m" dt).1 i ∧
+    (unstructured sched (fun m p => a * f m p) nf f1 bins nb pos dim np "m" dt).2 i =
+      (unstructured sched f nf f1 bins nb pos dim np "m" dt).2 i := by
+  have h1 := unstructured_spec sched hs (fun m p => a * f m p) nf f1 bins nb pos dim np "m" dt i
+  have h2 := unstructured_spec sched hs f nf f1 bins nb pos dim np "m" dt i
+  simp only [hi, if_true] at h1 h2
+  have e1 := congrArg Prod.fst h1; have e2 := congrArg Prod.snd h1
+  have e3 := congrArg Prod.fst h2; have e4 := congrArg Prod.snd h2
+  simp only [] at e1 e2 e3 e4
+  rw [e1, e2, e3, e4, binCell_eq_accum, binCell_eq_accum]
+  -- over ℝ no value is NaN: the triple lists coincide
+  have hT : triples (fun m p => a * f m p) nf np (inBin (distOf dt dim pos dim np) bins i) =
+      triples f nf np (inBin (distOf dt dim pos dim np) bins i) := by
+    unfold triples validFields; simp
+  rw [hT]
+  have key : accum (fun m p => a * f m p) (choose_estimator_func "m")
+      (triples f nf np (inBin (distOf dt dim pos dim np) bins i)) ((((0:Nat):ℝ)), (0:Int)) =
+      (a ^ 2 * (accum f (choose_estimator_func "m") (triples f nf np (inBin (distOf dt dim pos dim np) bins i)) ((((0:Nat):ℝ)), (0:Int))).1,
+       (accum f (choose_estimator_func "m") (triples f nf np (inBin (distOf dt dim pos dim np) bins i)) ((((0:Nat):ℝ)), (0:Int))).2) := by
+    have := accum_scale_matheron f a (triples f nf np (inBin (distOf dt dim pos dim np) bins i)) 0 0
+    simpa using this
+  rw [key]
+  constructor
+  · simp only [matheron_real]; ring_nf
+  · rfl
+
+/-- great-circle binning in a length unit `g > 0` equals binning in radians after unit conversion:
+    `d` (radians) lies in `[b_i / g, b_{i+1} / g)` iff `d · g` lies in `[b_i, b_{i+1})` -/
+theorem geo_scale_bins (d g lo hi : ℝ) (hg : 0 < g) :
+    (¬ (d < lo / g ∨ d ≥ hi / g)) ↔ (lo ≤ d * g ∧ d * g < hi) := by
+  rw [not_or, not_lt, ge_iff_le, not_le, div_le_iff₀ hg, lt_div_iff₀ hg]
+
+theorem binsToRadians_spec (bins : List ℝ) (g : ℝ) :
+    GSV.Model.Vario.binsToRadians bins true g = bins.map (· / g) ∧
+    GSV.Model.Vario.binsToRadians bins false g = bins := by
+  simp [GSV.Model.Vario.binsToRadians]
+
+example : ∃ Q : Matrix (Fin 2) (Fin 2) ℝ, Q.transpose * Q = 1 ∧ Q ≠ 1 :=
+  ⟨!![0, -1; 1, 0], by ext i j; fin_cases i <;> fin_cases j <;> simp [Matrix.mul_apply, Fin.sum_univ_two],
+    by intro h; have := congrFun (congrFun h 0) 0; simp at this⟩
 
 end GSV.Props.C09
